@@ -488,6 +488,14 @@ def judge_c09(spec, PS, PT, ms, mt):
                 moved = any(abs(x - y) > 2e-6 for x, y in zip(allpos_s, allpos_t))
                 probs.append({"rule": "dot-position" if moved else "dot-colour", "colour": k, "svg": bad[0][0], "tikz": bad[0][1]})
                 break
+    # same dots: SVG draws a circle of radius r, TikZ a circle node of "minimum size" = diameter
+    try:
+        ds = sorted(set(2 * float(d["size"]) for d in PS.dots))
+        dt_ = sorted(set(float(d["size"]) for d in PT.dots))
+        if ds != dt_:
+            probs.append({"rule": "dot-size", "svg_diameters": ds[:4], "tikz_diameters": dt_[:4]})
+    except (TypeError, ValueError):
+        probs.append({"rule": "dot-size", "svg": [d["size"] for d in PS.dots][:3], "tikz": [d["size"] for d in PT.dots][:3]})
     if any(d["orient"] != PS.dots[0]["orient"] for d in PS.dots + PT.dots):
         probs.append({"rule": "dot-axis", "svg": PS.dots[0]["orient"], "tikz": [d["orient"] for d in PT.dots][:4]})
     if ms is None or mt is None:
